@@ -9,8 +9,9 @@
 //!  * Policies: all 64 masks × all combinations of in-domain value classes (10,000);
 //!  * transactions: quick = star sub-product of TX(2) (each dimension over its full
 //!    domain at two base points, all input-kind × output-kind pairs, every kind) with and
-//!    without precomputed metadata; thorough = the full product
-//!    policies(128) × input lists(57) × output lists(31) × witness lists(111) × body.
+//!    without precomputed metadata; thorough = the full product 6 kinds ×
+//!    policies(128) × input lists(57) × output lists(31) × witness lists(111) × 2 body
+//!    points (301 M transactions; the body dimension is exhausted by the star level).
 //!
 //! Oracle (per value v of type T), straight from the statement:
 //!  1. `v.to_bytes()` does not panic; its length == `v.size()` == size_static+size_dynamic,
@@ -83,11 +84,11 @@ impl Acc {
         *self.outcomes.entry(label.to_string()).or_insert(0) += 1;
     }
 
-    fn viol(&mut self, key: String, what: String, case: &dyn Fn() -> Value) {
+    fn viol(&mut self, key: String, what: &dyn Fn() -> String, case: &dyn Fn() -> Value) {
         match self.viols.get_mut(&key) {
             Some(e) => e.2 += 1,
             None => {
-                self.viols.insert(key, (what, case(), 1));
+                self.viols.insert(key, (what(), case(), 1));
             }
         }
     }
@@ -143,7 +144,7 @@ where
         Ok(x) => x,
         Err(m) => {
             acc.outcome("encode_panicked");
-            acc.viol(key("panic"), format!("encoding {} panicked: {m}", short(v)), case);
+            acc.viol(key("panic"), &|| format!("encoding {} panicked: {m}", short(v)), case);
             return None
         }
     };
@@ -152,7 +153,7 @@ where
         ok = false;
         acc.viol(
             key("size"),
-            format!(
+            &|| format!(
                 "encoded {} bytes but size()={size} (size_static={ss}, size_dynamic={sd}) for {}",
                 bytes.len(),
                 short(v)
@@ -162,13 +163,13 @@ where
     }
     if bytes.len() % 8 != 0 {
         ok = false;
-        acc.viol(key("alignment"), format!("encoded length {} is not word aligned for {}", bytes.len(), short(v)), case);
+        acc.viol(key("alignment"), &|| format!("encoded length {} is not word aligned for {}", bytes.len(), short(v)), case);
     }
     if bytes.len() != spec_len {
         ok = false;
         acc.viol(
             key("spec-length"),
-            format!("encoded {} bytes, the format tables give {spec_len} for {}", bytes.len(), short(v)),
+            &|| format!("encoded {} bytes, the format tables give {spec_len} for {}", bytes.len(), short(v)),
             case,
         );
     }
@@ -188,13 +189,13 @@ where
     match dec {
         Err(m) => {
             ok = false;
-            acc.viol(key("panic"), format!("decoding the encoding of {} panicked: {m}", short(v)), case);
+            acc.viol(key("panic"), &|| format!("decoding the encoding of {} panicked: {m}", short(v)), case);
         }
         Ok((Err(e), _)) => {
             ok = false;
             acc.viol(
                 rt_key("decode-error"),
-                format!("decoding the encoding of {} failed: {e:?}", short(v)),
+                &|| format!("decoding the encoding of {} failed: {e:?}", short(v)),
                 case,
             );
         }
@@ -204,7 +205,7 @@ where
                 ok = false;
                 acc.viol(
                     rt_key("consumed"),
-                    format!(
+                    &|| format!(
                         "decoder consumed {consumed} of the {} encoded bytes of {} and returned {}",
                         bytes.len(),
                         short(v),
@@ -216,7 +217,7 @@ where
                 ok = false;
                 acc.viol(
                     rt_key("value"),
-                    format!("decoded value {} differs from the original {}", short(&v2), short(v)),
+                    &|| format!("decoded value {} differs from the original {}", short(&v2), short(v)),
                     case,
                 );
             }
@@ -230,13 +231,13 @@ where
                 ok = false;
                 acc.viol(
                     rt_key("value"),
-                    format!("from_bytes(exact encoding) gave {} for {}", short(&other), short(v)),
+                    &|| format!("from_bytes(exact encoding) gave {} for {}", short(&other), short(v)),
                     case,
                 );
             }
             Err(m) => {
                 ok = false;
-                acc.viol(key("panic"), format!("from_bytes panicked: {m}"), case);
+                acc.viol(key("panic"), &|| format!("from_bytes panicked: {m}"), case);
             }
         }
     }
